@@ -32,7 +32,13 @@ RULE = (
     'exponent x 8 mantissa patterns as bit patterns plus 64 seed-derived '
     'patterns; String: every UTF-8 width (boundary code points of each '
     'width) padded to byte lengths B-1, B, B+1 for B in 0, 1, 127, 128, '
-    '16383, 16384, plus strings within the 32767-character limit whose UTF-8 '
+    '16383, 16384; 26 code points that codecs treat specially (U+FEFF, '
+    'U+FFFE, U+FFFF and the other plane-end non-characters, U+0000, U+FFFD, '
+    'line breaks, the first and last code point of every UTF-8 width) each '
+    'alone, doubled, first, last, in the middle, first and last, and every '
+    'ordered pair of U+FEFF, U+FFFE, U+FFFF, U+0000, U+FFFD at the start, at '
+    'the end and around a text (encode and decode judged exactly); '
+    'plus strings within the 32767-character limit whose UTF-8 '
     'form exceeds 32767 bytes (16384 two-byte, 10923 three-byte, 8192 '
     'four-byte, 32767 three-byte characters; thorough: 32767 characters '
     'of every width); Var/Short-prefixed byte '
@@ -55,11 +61,27 @@ RULE = (
     'the total per class is in the evidence.  Concurrency: every pair of '
     '21 encode/decode operations (VarInt, VarLong, String, byte array, '
     'arrays, UUID, Angle, FixedPoint, Position, Long, Double; sends and '
-    'reads) is run by two threads under the controlled scheduler with every '
+    'reads), and for each of 28 types (the 10 scalars, VarInt, VarLong, '
+    'String, UUID, Angle, 3 FixedPoints, Position at 340/340, 340/578 and '
+    '578/578, the 3 byte-array types, 4 arrays) the SAME operation twice '
+    'with two different values (two sends; two reads), '
+    'is run by two threads under the controlled scheduler with every '
     'source line of types/basic.py, types/utility.py, types/enum.py and '
     'packet_buffer.py a scheduling point, all schedules with at most 1 '
     '(thorough: 2) preemptions; each thread must observe what the operation '
-    'gives alone, also afterwards.')
+    'gives alone, also afterwards.  A send is observed twice: the bytes the '
+    'PacketBuffer copied at each socket.send() call, and the objects passed '
+    'to send() read when the operation has returned (a transport may '
+    'consume a buffer later).  History: every pair of the 4 kinds of '
+    'byte-array operation (Var/Short-prefixed, send/read; the same kind '
+    'twice included; thorough: every pair of 8 operations) is run after a '
+    'warm-up history of 70 distinct sizes (1..70) through both byte-array '
+    'types and String, encode and decode, with operand lengths the history '
+    'never used and that differ between the two threads, each execution in '
+    'a fresh fork of a worker that has executed no codec before, with every '
+    'BYTECODE INSTRUCTION of the four modules a scheduling point, all '
+    'schedules with at most 1 preemption (thorough: additionally line '
+    'points with at most 2 on the quick pairs).')
 ASSUMPTIONS = [
     'non-termination of an encoder is judged by a horizon of 2,000,000 traced '
     'line events per send (the largest enumerated case, a 32767-element '
@@ -74,6 +96,9 @@ ASSUMPTIONS = [
     'values outside a type\'s range are outside the protocol and not judged',
     'FixedPoint is not used as a PrefixedArray element type (pyCraft never '
     'does); a hang inside C code (struct, BytesIO) cannot be detected',
+    'thread switches are explored at source-line granularity (at bytecode '
+    'granularity for the byte-array pairs after the warm-up history); a '
+    'warm-up of 70 sizes fills size-bounded caches of up to 70 entries',
 ]
 
 HORIZON = 2000000
@@ -905,8 +930,37 @@ WIDTH_CHARS = {
 }
 
 
+# Code points that codecs, decoders and text layers treat specially at
+# particular positions: the byte order mark / UTF-8 signature U+FEFF, the
+# non-characters U+FFFE and U+FFFF, NUL, the replacement character, every
+# kind of line break, and the first and last code point of every UTF-8 width
+# (surrogates excluded: they are not in the domain).
+SPECIAL_CPS = (0x0000, 0x0009, 0x000a, 0x000d, 0x0020, 0x007f, 0x0080, 0x0085,
+               0x00a0, 0x07ff, 0x0800, 0x2028, 0x2029, 0xd7ff, 0xe000, 0xfdd0,
+               0xfeff, 0xfffd, 0xfffe, 0xffff, 0x10000, 0x1fffe, 0x1ffff,
+               0xe0001, 0x10fffe, 0x10ffff)
+
+
+def special_strings():
+    """Each special code point alone, doubled, first, last, in the middle,
+    first and last; and every ordered pair of two of the BOM-like ones."""
+    out = set()
+    for cp in SPECIAL_CPS:
+        c = chr(cp)
+        out |= {c, c + c, c + 'ab', 'ab' + c, 'a' + c + 'b', c + 'ab' + c,
+                c + c + 'ab', 'ab' + c + c, c + '\xe9', '\U0001f600' + c}
+    bomlike = ['\ufeff', '\ufffe', '\uffff', '\x00', '\ufffd']
+    for a in bomlike:
+        for b in bomlike:
+            out |= {a + b, a + b + 'ab', 'ab' + a + b, a + 'ab' + b}
+    out |= {'\ufeff' * 3, '\ufeff' * 43, '\ufeff{"text": "hi"}',
+            '\xef\xbb\xbf', '\xff\xfe', '\xfe\xff'}
+    return out
+
+
 def string_values(thorough):
     out = {'', 'a\xe9\u20ac\U0001f600', 'Hello, world', '\x00'}
+    out |= special_strings()
     small = [0, 1, 2, 126, 127, 128, 129]
     big = [16382, 16383, 16384, 16385]
     for w, chars in WIDTH_CHARS.items():
@@ -1045,6 +1099,15 @@ def w_vals(R, seen, spec, values, proto):
                 [len(ref.utf8(c)) for c in set(v)] or [0]))
             ctx.cls('String length prefix %d byte(s)'
                     % len(ref.varnum(len(raw))))
+            for cp, nm in ((0xfeff, 'U+FEFF'), (0xfffe, 'U+FFFE'),
+                           (0xffff, 'U+FFFF'), (0, 'U+0000')):
+                c = chr(cp)
+                if v[:1] == c:
+                    ctx.cls('String starts with %s' % nm)
+                if v[-1:] == c:
+                    ctx.cls('String ends with %s' % nm)
+                if c in v[1:-1]:
+                    ctx.cls('String has %s inside' % nm)
         elif spec in BYTES_T:
             ctx.cls('%s length %s' % (spec, 'small' if len(v) < 128 else
                                       'medium' if len(v) < 16384 else 'big'))
@@ -1301,7 +1364,12 @@ REQUIRED_CLASSES = [
     'String widest char 1 byte(s)', 'String widest char 2 byte(s)',
     'String widest char 3 byte(s)', 'String widest char 4 byte(s)',
     'String length prefix 1 byte(s)', 'String length prefix 2 byte(s)',
-    'String length prefix 3 byte(s)', 'array empty', 'array non-empty',
+    'String length prefix 3 byte(s)',
+    'String starts with U+FEFF', 'String ends with U+FEFF',
+    'String has U+FEFF inside', 'String starts with U+FFFE',
+    'String starts with U+FFFF', 'String ends with U+FFFF',
+    'String starts with U+0000', 'String ends with U+0000',
+    'array empty', 'array non-empty',
     'array nested', 'array of context-requiring elements',
     'prefixes: all cuts', 'prefixes: sampled cuts (long encoding)',
     'dispatch scenario',
@@ -1341,25 +1409,145 @@ RACE_OPS = [
 ]
 
 
+# The SAME operation twice at the same time with two different values, for
+# every wire type: a scratch buffer, a memo or a cached codec object that
+# belongs to ONE type only shows between two calls of that type.
+# (spec, value a, value b[, protocol a, protocol b])
+TWINS = [
+    ('Boolean', True, False), ('Byte', -2, 77), ('UnsignedByte', 200, 7),
+    ('Short', -300, 0x1234), ('UnsignedShort', 65000, 258),
+    ('Integer', -70000, 0x01020304), ('Long', -2, 0x0102030405060708),
+    ('UnsignedLong', 2 ** 64 - 2, 0x1112131415161718),
+    ('Float', 1.5, -2.25), ('Double', 0.1, -1e300),
+    ('VarInt', 300, 16702650), ('VarLong', (1 << 40) + 3, (1 << 62) + 1),
+    ('String', 'a\xe9€', 'x' * 130),
+    ('UUID', '01234567-89ab-cdef-0123-456789abcdef',
+     'fedcba98-7654-3210-fedc-ba9876543210'),
+    ('Angle', 90.0, 181.40625),
+    (('FixedPoint', 'Integer', None), 1.5, -20.25),
+    (('FixedPoint', 'Short', 12), 0.5, -1.25),
+    ('FixedPointInteger', 3.0, -0.5),
+    ('Position', [1200, 65, -420], [-3, 4, 5]),
+    ('Position', [1200, 65, -420], [-3, 4, 5], PROTO_A, PROTO_B),
+    ('Position', [1200, 65, -420], [-3, 4, 5], PROTO_B, PROTO_B),
+    ('VarIntPrefixedByteArray', 'hex:' + pattern(200).hex(),
+     'hex:' + pattern(131, 9).hex()),
+    ('ShortPrefixedByteArray', 'hex:' + pattern(210).hex(),
+     'hex:' + pattern(140, 5).hex()),
+    ('TrailingByteArray', 'hex:' + pattern(40).hex(),
+     'hex:' + pattern(33, 3).hex()),
+    (('PrefixedArray', 'VarInt', 'Short'), [1, -2, 300], [7, 8]),
+    (('PrefixedArray', 'Short', 'String'), ['ab', '', 'c' * 130], ['€']),
+    (('PrefixedArray', 'VarInt', 'Position'), [[1, 2, 3], [4, 5, 6]],
+     [[-1, -2, -3]]),
+    (('PrefixedArray', 'VarInt', ('PrefixedArray', 'Short', 'Byte')),
+     [[1, 2], [], [3]], [[-4]]),
+]
+
+# History: the concurrent sections above start from whatever the process has
+# seen.  Here the two operations run after a warm-up history of WARM distinct
+# sizes through every length-keyed codec (byte arrays of both kinds and
+# strings, encode and decode), so that any size-bounded cache of up to WARM
+# entries is full, and they use lengths the history never used (and that
+# differ from each other), so that both miss at the same time.
+WARM = 70
+WARM_OPS = [
+    ('send', 'VarIntPrefixedByteArray', 'hex:' + pattern(200).hex()),
+    ('read', 'VarIntPrefixedByteArray',
+     'hex:' + ref.var_bytes(pattern(131, 9)).hex()),
+    ('send', 'ShortPrefixedByteArray', 'hex:' + pattern(210).hex()),
+    ('read', 'ShortPrefixedByteArray',
+     'hex:' + ref.short_bytes(pattern(260, 2)).hex()),
+    # second value of each kind
+    ('send', 'VarIntPrefixedByteArray', 'hex:' + pattern(300, 1).hex()),
+    ('read', 'VarIntPrefixedByteArray',
+     'hex:' + ref.var_bytes(pattern(150, 4)).hex()),
+    ('send', 'ShortPrefixedByteArray', 'hex:' + pattern(220, 6).hex()),
+    ('read', 'ShortPrefixedByteArray',
+     'hex:' + ref.short_bytes(pattern(170, 7)).hex()),
+]
+
+
+def _unhex(v):
+    return bytes.fromhex(v[4:]) if isinstance(v, str) and \
+        v.startswith('hex:') else v
+
+
+def twin_encoding(spec, v, proto):
+    spec, v = tup(spec), _unhex(v)
+    if spec == 'VarLong':
+        return ref.varnum(v)
+    if spec == 'Angle':
+        return bytes([ref.angle_byte(v)])
+    if needs_ctx(spec):
+        v = _tuples(spec, v)
+    return ref_encode(spec, v, proto)
+
+
+def twin_pairs():
+    """[(op a, op b)]: for every entry of TWINS the two sends and the two
+    reads (of the reference encodings)."""
+    out = []
+    for t in TWINS:
+        spec, a, b = t[:3]
+        pa, pb = (t[3], t[4]) if len(t) > 3 else (None, None)
+        out.append((['send', spec, a, pa], ['send', spec, b, pb]))
+        out.append((['read', spec, 'hex:' + twin_encoding(spec, a, pa).hex(),
+                     pa],
+                    ['read', spec, 'hex:' + twin_encoding(spec, b, pb).hex(),
+                     pb]))
+    return out
+
+
+def warm_pairs(thorough):
+    """quick: every pair of the 4 kinds of byte-array operation, the same
+    kind twice included (first value against second value); thorough: every
+    pair of the 8 operations."""
+    quick = [(list(WARM_OPS[i]), list(WARM_OPS[4 + j]))
+             for i in range(4) for j in range(i, 4)]
+    if thorough:
+        return quick + [(list(WARM_OPS[i]), list(WARM_OPS[j]))
+                        for i in range(8) for j in range(i + 1, 8)
+                        if not (i < 4 and j >= 4 + i)]
+    return quick
+
+
+class RaceSink(object):
+    """What a transport may do with the object handed to send(): consume it
+    at once (the PacketBuffer copies it), or keep the reference and consume
+    it later - here when the operation has returned."""
+
+    def __init__(self, pb):
+        self.pb, self.kept = pb, []
+
+    def send(self, data):
+        self.kept.append(data)
+        self.pb.send(data)
+
+    def observed(self):
+        return (self.pb.get_writable().hex(),
+                b''.join(bytes(k) for k in self.kept).hex())
+
+
 def race_op(op):
-    kind, spec, arg = op
+    kind, spec, arg = op[:3]
+    proto = op[3] if len(op) > 3 else None
     spec = tup(spec)
     T = build(spec)
-    cctx = context(None)
+    cctx = context(proto)
     mode = 'ctx' if needs_ctx(spec) else 'plain'
-    if isinstance(arg, str) and arg.startswith('hex:'):
-        arg = bytes.fromhex(arg[4:])
-    if spec == 'Position':
-        arg = tuple(arg) if kind == 'send' else arg
+    arg = _unhex(arg)
+    if kind == 'send' and needs_ctx(spec):
+        arg = _tuples(spec, arg)
     PB = env().PacketBuffer
 
     def send():
-        buf = PB()
+        sink = RaceSink(PB())
         if mode == 'ctx':
-            T.send_with_context(arg, buf, cctx)
+            T.send_with_context(arg, sink, cctx)
         else:
-            T.send(arg, buf)
-        return buf.get_writable().hex()
+            T.send(arg, sink)
+        return sink.observed()
 
     def read():
         buf = PB()
@@ -1370,32 +1558,91 @@ def race_op(op):
     return send if kind == 'send' else read
 
 
+_WARM = {}
+
+
+def warm_material(n):
+    if n not in _WARM:
+        _WARM[n] = [(spec, build(spec), v, ref_encode(spec, v))
+                    for k in range(1, n + 1)
+                    for spec, v in (
+                        ('VarIntPrefixedByteArray', pattern(k, k)),
+                        ('ShortPrefixedByteArray', pattern(k, k + 1)),
+                        ('String', 'w' * k))]
+    return _WARM[n]
+
+
+def warm_up(n):
+    """The history before a race: n distinct sizes through every length-keyed
+    codec, encode and decode.  -> [problem text]"""
+    PB = env().PacketBuffer
+    warm_material(n)
+    bad = []
+    for spec, T, v, want in _WARM[n]:
+        try:
+            buf = PB()
+            T.send(v, buf)
+            out = buf.get_writable()
+            buf = PB()
+            buf.send(want + SENT)
+            buf.reset_cursor()
+            back = T.read(buf)
+            left = len(buf.read())
+        except Exception as e:
+            bad.append('%s with %d bytes/characters raised %s: %s'
+                       % (spec, len(v), exc_name(e), e))
+            continue
+        if out != want or not same(spec, back, v) or left != len(SENT):
+            bad.append('%s with %d bytes/characters: wrote %s (expected '
+                       '%s), read back %s leaving %d bytes'
+                       % (spec, len(v), hexs(out), hexs(want), short(back),
+                          left))
+    return bad
+
+
+def _tries(ops):
+    out = []
+    for f in ops:
+        try:
+            out.append(('ok', f()))
+        except Exception as e:
+            out.append(('exc', '%s: %s' % (type(e).__name__, e)))
+    return out
+
+
+def op_text(o):
+    at = '@%d' % o[3] if len(o) > 3 and o[3] else ''
+    return '%s %s%s' % (o[0], name(tup(o[1])), at)
+
+
 def race_body(W, params):
     env()
     ops = [race_op(o) for o in params['ops']]
-    alone = []
-    for f in ops:
-        try:
-            alone.append(('ok', f()))
-        except Exception as e:
-            alone.append(('exc', '%s: %s' % (type(e).__name__, e)))
-    got = interleave.race(W, ops)
-    again = []
-    for f in ops:
-        try:
-            again.append(('ok', f()))
-        except Exception as e:
-            again.append(('exc', '%s: %s' % (type(e).__name__, e)))
+    alone = _tries(ops)
     viol = []
+    hist = ''
+    if params.get('warm'):
+        # after the runs alone, so that the history is what the race meets
+        hist = ' after a history of %d distinct sizes' % params['warm']
+        for text in warm_up(params['warm'])[:1]:
+            viol.append(('warm-up history differs', text))
+    got = interleave.race(W, ops)
+    again = _tries(ops)
     for i, o in enumerate(params['ops']):
-        what = '%s %s' % (o[0], name(tup(o[1])))
+        what = op_text(o)
+        other = params['ops'][1 - i]
         if got[i] != alone[i]:
             viol.append(('concurrent %s differs' % what,
-                         '%s(%s) run concurrently with %s %s gave %s; alone '
-                         'it gives %s' % (what, short(o[2]),
-                                          params['ops'][1 - i][0],
-                                          name(tup(params['ops'][1 - i][1])),
-                                          short(got[i]), short(alone[i]))))
+                         '%s(%s) run concurrently with %s(%s)%s gave %s; '
+                         'alone it gives %s%s'
+                         % (what, short(o[2]), op_text(other),
+                            short(other[2]), hist, short(got[i]),
+                            short(alone[i]),
+                            ' (a send is observed twice: the bytes copied '
+                            'at the moment of each socket.send() call, and '
+                            'the objects passed to send() read when the '
+                            'operation has returned)' if o[0] == 'send'
+                            else '')))
         if again[i] != alone[i]:
             viol.append(('after concurrent use %s differs' % what,
                          '%s(%s) gives %s after the concurrent run, %s '
@@ -1404,28 +1651,76 @@ def race_body(W, params):
     return {'outcome': tuple(got), 'violations': viol}
 
 
+def race_prepare(params):
+    """Once per worker process (and before the first execution anywhere):
+    imports and scheduling points only, no codec is executed."""
+    env()
+    # armed in every worker from the start (not only where an instruction-
+    # level pair happens to run first): outside windows the hooked callbacks
+    # switch themselves off, which makes the warm-up histories cheap
+    interleave.install(RACE_MODULES, instructions=True)
+    for o in params['ops']:
+        build(tup(o[1]))
+    if params.get('warm'):
+        warm_material(params['warm'])
+
+
 def race_factory(params):
     def scenario(prefix, expect, visited=None, budget=0):
+        race_prepare(params)
         return interleave.run(lambda W: race_body(W, params), prefix, expect,
-                              budget, modules=RACE_MODULES)
+                              budget, modules=RACE_MODULES,
+                              instructions=bool(params.get('ins')))
+    scenario.prepare = lambda: race_prepare(params)
     return scenario
+
+
+C_PAIR = 'concurrent pair of codec calls, all schedules'
+C_TWIN = 'same operation twice with two values, all schedules'
+C_WARM = 'pair of byte-array calls after a warm-up history, line points'
+C_WINS = 'pair of byte-array calls after a warm-up history, instruction ' \
+    'points'
 
 
 def run_races(ctx, ex):
     bound = 2 if ctx.thorough else 1
-    pairs = [(i, j) for i in range(len(RACE_OPS))
-             for j in range(i + 1, len(RACE_OPS))]
-    execs = 0
-    for i, j in pairs:
-        res = ex.explore(ctx, race_factory,
-                         {'ops': [list(RACE_OPS[i]), list(RACE_OPS[j])]},
-                         bound, label='race ')
-        execs += res.execs
-        ctx.cls('concurrent pair of codec calls, all schedules')
+    jobs = []
+    # The pairs after a warm-up history come first and run 'cold': every
+    # execution in a fresh fork of a worker that has not executed any codec
+    # yet, so that whatever an execution leaves behind in module-level state
+    # (that is what the history is there to provoke) cannot reach the next.
+    for k, (a, b) in enumerate(warm_pairs(ctx.thorough)):
+        if bound > 1 and k < 10:
+            # (at bound 1 the instruction points below include every
+            # schedule that line points give)
+            jobs.append(({'ops': [a, b], 'warm': WARM}, bound, C_WARM, True))
+        jobs.append(({'ops': [a, b], 'warm': WARM, 'ins': 1}, 1, C_WINS,
+                     True))
+    for i in range(len(RACE_OPS)):
+        for j in range(i + 1, len(RACE_OPS)):
+            jobs.append(({'ops': [list(RACE_OPS[i]), list(RACE_OPS[j])]},
+                         bound, C_PAIR, False))
+    for a, b in twin_pairs():
+        jobs.append(({'ops': [a, b]}, bound, C_TWIN, False))
+    execs = {}
+    for params, b, cls, cold in jobs:
+        res = ex.explore(ctx, race_factory, params, b, label='race ',
+                         cold=cold)
+        execs[cls] = execs.get(cls, 0) + res.execs
+        ctx.cls(cls)
+    for cls in (C_PAIR, C_TWIN, C_WINS) + ((C_WARM,) if bound > 1 else ()):
+        if not ctx.classes.get(cls):
+            raise ToolError('vacuity guard: class %r was never exercised'
+                            % cls)
     ctx.extra['concurrent'] = {
-        'operations': len(RACE_OPS), 'pairs': len(pairs),
-        'preemption_bound': bound, 'schedules_executed': execs,
-        'points': 'every source line of ' + ', '.join(RACE_MODULES)}
+        'operations': len(RACE_OPS),
+        'pairs': {cls: sum(1 for j in jobs if j[2] == cls)
+                  for cls in (C_PAIR, C_TWIN, C_WARM, C_WINS)},
+        'preemption_bound': bound, 'preemption_bound_instruction_points': 1,
+        'warm_up_sizes': WARM,
+        'schedules_executed': execs,
+        'points': 'every source line (instruction points: every bytecode '
+                  'instruction) of ' + ', '.join(RACE_MODULES)}
 
 
 def run(ctx):
